@@ -11,6 +11,9 @@ package guardiansets
 //@ monitor (gs *GuardianSets) lock()
 //@   modifies GuardianSets.currentGuardianSetIndex, GuardianSets.guardianSetLists
 //@   invariant [indexed] indexed(gs)
+// sets are only ever appended: every critical section guarantees it, every later one relies on it
+//@   rely [only-grows] gs.currentGuardianSetIndex >= old(gs.currentGuardianSetIndex) && (forall i in 0..old(len(gs.guardianSetLists)) :: gs.guardianSetLists[i] == old(gs.guardianSetLists[i]))
+//@   guarantee [only-grows] gs.currentGuardianSetIndex >= old(gs.currentGuardianSetIndex) && (forall i in 0..old(len(gs.guardianSetLists)) :: gs.guardianSetLists[i] == old(gs.guardianSetLists[i]))
 // consecutive: what the chain query returns - sets from..to in order, each carrying its index
 //@ pred consecutive(s []*common.GuardianSet, from int) = forall k in 0..len(s) :: s[k] != nil && allocated(s[k]) && s[k].Index == from + k
 
